@@ -2,7 +2,7 @@
      t4 <cfg> <t0> <ip+ip+...> <mac+mac+...> <op> <op> ...
    (candidate addresses and MACs the views are queried for), the observation is the
    transcript of the read-only API after every step:
-     G:<GetHosts triples sorted>|F:<FindIP per candidate>|A:<IPAddrs per MAC, sorted>|B:<FindByMAC per MAC, sorted>|E:<MAC has a listed host>
+     G:<GetHosts triples sorted>|F:<FindIP per candidate>|A:<IPAddrs per MAC, sorted>|B:<FindByMAC per MAC, sorted>|E:<MAC has a listed host>|X:<IPAddrs nil/non-nil per MAC, model only>
    column 1 from the model state, column 2 from the reference model (Spec/HostTracking.v). *)
 From PV Require Import Base.Text Model.Tables Model.TablesShow Spec.HostTracking.
 Open Scope string_scope.
@@ -22,6 +22,12 @@ Fixpoint opt_list {A} (l : list (option A)) : option (list A) :=
 Definition ips_of_tok (s : string) : option (list ip) := opt_list (map ip_of_tok (split "+"%char s)).
 Definition macs_of_tok (s : string) : option (list mac) := opt_list (map mac_of_tok (split "+"%char s)).
 
+(* IPAddrs distinguishes "no MAC entry" (nil) from "entry without hosts" (empty): the property text does not
+   constrain MAC-only entries (Capture / SetDHCPv4IPOffer), so this field is compared with the model only and
+   echoed into the reference column *)
+Definition m_entries (ms : list mac) (s : state) : string :=
+  join "" (map (fun m => match ip_addrs m s with Some _ => "e" | None => "n" end) ms).
+
 (* ---- model side ---- *)
 Definition m_views (ips : list ip) (ms : list mac) (s : state) : string :=
   "G:" ++ join "," (map (fun e => show_tr (h_mac (snd e)) (h_ip (snd e)) (h_online (snd e))) (sorted_hosts s)) ++
@@ -31,27 +37,29 @@ Definition m_views (ips : list ip) (ms : list mac) (s : state) : string :=
                                    | Some l => join "+" (map show_ip (sort_by ip_leb (map snd l))) | None => "" end) ms) ++
   "|B:" ++ join "," (map (fun m => join "+" (map show_ip (sort_by ip_leb (map snd (find_by_mac m s))))) ms) ++
   "|E:" ++ join "" (map (fun m => match find_mac_entry m s with
-                                  | Some e => b01 (negb (Nat.eqb (List.length (m_hosts e)) 0)) | None => "0" end) ms).
+                                  | Some e => b01 (negb (Nat.eqb (List.length (m_hosts e)) 0)) | None => "0" end) ms) ++
+  "|X:" ++ m_entries ms s.
 
 (* ---- reference side ---- *)
-Definition r_views (ips : list ip) (ms : list mac) (a : amap) : string :=
+Definition r_views (ips : list ip) (ms : list mac) (s : state) (a : amap) : string :=
   let of_mac m := filter (fun k => match a k with Some e => a_mac e =? m | None => false end) ips in
   "G:" ++ join "," (flat_map (fun k => match a k with Some e => [show_tr (a_mac e) k (a_online e)] | None => [] end) ips) ++
   "|F:" ++ join "," (map (fun k => match a k with Some e => show_tr (a_mac e) k (a_online e) | None => "-" end) ips) ++
   "|A:" ++ join "," (map (fun m => join "+" (map show_ip (of_mac m))) ms) ++
   "|B:" ++ join "," (map (fun m => join "+" (map show_ip (of_mac m))) ms) ++
-  "|E:" ++ join "" (map (fun m => b01 (negb (Nat.eqb (List.length (of_mac m)) 0))) ms).
+  "|E:" ++ join "" (map (fun m => b01 (negb (Nat.eqb (List.length (of_mac m)) 0))) ms) ++
+  "|X:" ++ m_entries ms s.
 
 Fixpoint run4 (c : cfg) (ips : list ip) (ms : list mac) (s : state) (a : amap) (ops : list pop)
   : list string * list string :=
   match ops with
-  | [] => ([], [])
+  | [] => ([m_views ips ms s], [r_views ips ms s a])     (* final views after the receive buffer was overwritten *)
   | p :: r =>
       let o := resolve s p in
       let s1 := set_chan [] (fst (step c s o)) in
       let a1 := ref_step c a o in
       let (x, y) := run4 c ips ms s1 a1 r in
-      (m_views ips ms s1 :: x, r_views ips ms a1 :: y)
+      (m_views ips ms s1 :: x, r_views ips ms s1 a1 :: y)
   end.
 
 Definition dispatch (kind : string) (args : list string) : string :=
@@ -65,7 +73,7 @@ Definition dispatch (kind : string) (args : list string) : string :=
             | Ok s0 =>
                 let a0 := ref_init c t0 in
                 let (x, y) := run4 c ips ms s0 a0 ops in
-                out3 (join ";" (m_views ips ms s0 :: x)) (join ";" (r_views ips ms a0 :: y)) "-"
+                out3 (join ";" (m_views ips ms s0 :: x)) (join ";" (r_views ips ms s0 a0 :: y)) "-"
             | _ => out3 "panic" "-" "-"
             end
         | _, _, _, _, _ => BADARGS
